@@ -161,6 +161,12 @@ func menu(c cfg) proch.Enabled {
 			proch.Event{Kind: "obs", G: g0, D: 0, ObsKind: 2, Claim: c.ObsKeys[len(c.ObsKeys)/2]},
 			proch.Event{Kind: "obs", G: outsider, D: 0, ObsKind: 2, Claim: g0},
 			proch.Event{Kind: "obs", G: g0, D: 0, ObsKind: 3})
+		// a valid signature in the 27/28 recovery-id encoding, by two different guardians
+		recid := len(proch.ObsKinds) - 1
+		evs = append(evs, proch.Event{Kind: "obs", G: g0, D: 0, ObsKind: recid})
+		if len(c.ObsKeys) > 1 {
+			evs = append(evs, proch.Event{Kind: "obs", G: c.ObsKeys[1], D: 0, ObsKind: recid})
+		}
 		for k, mi := range c.InMsgs {
 			for _, v := range c.InVars {
 				if k == 0 && len(c.InMsgs) > 1 && v != 0 && v != 1 && v != 6 {
